@@ -13,10 +13,11 @@ open Gd Gd.Valve Gd.Games
 def sameGame (d m : Gd.Gen.GameRow) : Bool := d.id == m.id || d.name == m.name
 
 /-- Every game of the definitions table that has a dedicated module: the module's default port,
-protocol, engine (app ids) and gathering settings are the definition's. -/
+protocol, engine (app ids) and gathering settings are the definition's (as texts and as the typed `tag`). -/
 theorem C14_tables_agree :
     (Gd.Gen.gameDefs.all fun d => Gd.Gen.gameMods.all fun m =>
-      !sameGame d m || (d.port == m.port && d.proto == m.proto && d.engine == m.engine && d.gather == m.gather)) = true := by
+      !sameGame d m || (d.port == m.port && d.proto == m.proto && d.engine == m.engine && d.gather == m.gather
+        && d.tag == m.tag)) = true := by
   decide
 
 /-- Every row is in the translator's grammar (no engine / gather / protocol expression it could not read). -/
